@@ -7,13 +7,14 @@
   Proved here: the grammar the parser model transcribes is the grammar of the source, production by
   production (regenerated obligation); **precedence and associativity** (`C03_precedence`,
   `C03_parenthesisation_irrelevant`): for every expression over numbers, literals, unary minus, the
-  thirteen binary operators and parentheses — any operator mix, any depth — that carries at least the
+  thirteen binary operators, parentheses and function calls with up to three argument expressions (each
+  argument again any such expression) — any operator mix, any depth — that carries at least the
   parentheses its shape needs (`PE.fits 0`: a left operand may be of the operator's own level, a right
   operand must bind tighter, the operand of unary minus is unary), the parser returns the postfix code of
   the tree, so two ways of writing one tree compile to the same program, and explicit parentheses around
   any sub-expression change nothing; whitespace in front of any token is insignificant for the lexer
   (`C03_leading_ws`, all grammars, any amount); the program of a tree runs to a value or an error
-  whatever tree it is.  NOT proved: the same with function calls and location paths as operands, and the
+  whatever tree it is.  NOT proved: the same with location paths as operands, and the
   lexer's part of token-level correctness (text → tokens: the operator-name disambiguation) — held by the
   correspondence stream c03 (two renderings of the same tree, compared with each other and with
   `XC.program`), i.e. by testing.
@@ -62,6 +63,11 @@ def exFull : PE :=
   .bin .or (.paren (.bin .eq (.paren (.bin .sub (.paren (.bin .sub (.num SF.one) (.num SF.one))) (.paren (.bin .mul (.num SF.one) (.paren (.neg (.num SF.one))))))) (.num SF.one))) (.lit [120])
 example : exBare.fits 0 ∧ exFull.fits 0 ∧ exBare.tree = exFull.tree := by
   refine ⟨?_, ?_, rfl⟩ <;> simp [exBare, exFull, PE.fits, level]
+/-- … with function calls: concat('x', 1 - 1 * 1) or not((1 = 1)) -/
+def exCall : PE :=
+  .bin .or (.call2 .concat (.lit [120]) (.bin .sub (.num SF.one) (.bin .mul (.num SF.one) (.num SF.one))))
+    (.call1 .not (.paren (.bin .eq (.num SF.one) (.num SF.one))))
+example : exCall.fits 0 := by simp [exCall, PE.fits, level, Fn.sig]
 /-- and a shape that needs its parentheses does not fit without them: 1 - (2 - 3) written as 1 - 2 - 3 is
     another tree -/
 example : ¬ (PE.bin .sub (.num SF.one) (.bin .sub (.num SF.one) (.num SF.one))).fits 0 := by
